@@ -160,6 +160,10 @@ func parseDNSSL(d rawDNSSL, maxInterval time.Duration) (*plugin.DNSSL, error) {
 		return nil, fmt.Errorf("invalid lifetime: %v", err)
 	}
 
+	if err := checkLifetime(lifetime); err != nil {
+		return nil, fmt.Errorf("invalid lifetime: %v", err)
+	}
+
 	if len(d.DomainNames) == 0 {
 		return nil, errors.New("must specify one or more DNS search domain names")
 	}
@@ -217,6 +221,10 @@ func parsePrefix(p rawPrefix, epoch time.Time) (*plugin.Prefix, error) {
 		return nil, errors.New("valid lifetime must be non-zero")
 	}
 
+	if err := checkLifetime(valid); err != nil {
+		return nil, fmt.Errorf("invalid valid lifetime: %v", err)
+	}
+
 	preferred, err := parseDuration(p.PreferredLifetime, 4*time.Hour)
 	if err != nil {
 		return nil, fmt.Errorf("invalid preferred lifetime: %v", err)
@@ -225,6 +233,10 @@ func parsePrefix(p rawPrefix, epoch time.Time) (*plugin.Prefix, error) {
 	// Use defaults for auto values.
 	if preferred == 0 {
 		return nil, errors.New("preferred lifetime must be non-zero")
+	}
+
+	if err := checkLifetime(preferred); err != nil {
+		return nil, fmt.Errorf("invalid preferred lifetime: %v", err)
 	}
 
 	// See: https://tools.ietf.org/html/rfc4861#section-4.6.2.
@@ -301,6 +313,10 @@ func parseRoute(r rawRoute, epoch time.Time) (*plugin.Route, error) {
 		return nil, errors.New("lifetime must be non-zero")
 	}
 
+	if err := checkLifetime(lt); err != nil {
+		return nil, fmt.Errorf("invalid lifetime: %v", err)
+	}
+
 	// Deprecated routes cannot have an infinite lifetime.
 	if r.Deprecated && lt == ndp.Infinity {
 		return nil, errors.New("route is deprecated and cannot have an infinite lifetime")
@@ -325,6 +341,10 @@ func parseRDNSS(d rawRDNSS, maxInterval time.Duration) (*plugin.RDNSS, error) {
 	// 3 * MaxRtrAdvInterval.
 	lifetime, err := parseDuration(d.Lifetime, 3*maxInterval)
 	if err != nil {
+		return nil, fmt.Errorf("invalid lifetime: %v", err)
+	}
+
+	if err := checkLifetime(lifetime); err != nil {
 		return nil, fmt.Errorf("invalid lifetime: %v", err)
 	}
 
@@ -392,6 +412,17 @@ func parseRDNSS(d rawRDNSS, maxInterval time.Duration) (*plugin.RDNSS, error) {
 		Lifetime: lifetime,
 		Servers:  ips,
 	}, nil
+}
+
+// checkLifetime verifies that a lifetime can be represented by the 32-bit
+// seconds field of an NDP option: it must not be negative and must not exceed
+// the infinite lifetime sentinel.
+func checkLifetime(d time.Duration) error {
+	if d < 0 || d > ndp.Infinity {
+		return fmt.Errorf("%s must be between 0 and %s (infinite)", d, ndp.Infinity)
+	}
+
+	return nil
 }
 
 // parseIPPrefix parses s an IPv6 prefix which may optionally be empty. It
